@@ -176,5 +176,6 @@ def run(chk, ctx):
     from . import c20
     c20.r5(chk, ctx, ctx.mod("store"))                           # replacing a record leaves no field of the old one behind, in every store kind
     from . import round3
+    round3.list_executions_exact(chk, ctx)
     round3.start_resets_record(chk, ctx)
     chk.assume("json.dumps is deterministic for a given object; the topic producer delivers what it is given (C19)")
